@@ -7,7 +7,9 @@
  * stdout: per case a transcript
  *     case k K => ok
  *     decl tp <id> <total tasks> => ok
- *     decl comp <cid> <m1> ... <mn> => n=<nb_taskpools> term=<array[nb]==NULL> members=<1|0>
+ *     decl compose <rid> <a> <b> => kind=<new|append> n=<nb_taskpools> term=<array[nb]==NULL> members=<id,id,...>
+ *                                                (one line per parsec_compose call; the state of the RETURNED compound read through the mirror:
+ *                                                 members = ids of taskpool_array[0..n-1], -1 for a pointer that is no taskpool of the case)
  *     ev <kind> <thread> <a> <b> => ok          (all events of the case, ordered by the global stamp; cb/cbe = begin/end of a callback)
  *     end => quiescent | not-quiescent active=<v>
  * Events are recorded by test-owned task bodies and completion callbacks, by the master around
@@ -23,7 +25,10 @@
  *   cbdelay <id> <us>                        that callback spins <us> between its begin (`cb`) and end (`cbe`) stamps
  *   cbadd <id> <id2>                         that callback adds taskpool <id2> to the context
  *   addat <id> <task> <id2>                  the body of task <task> of <id> adds taskpool <id2>
- *   compound <cid> <m1> ... <mn>             cid = parsec_compose(...(m1, m2)..., mn)   (n >= 2)
+ *   compose <rid> <a> <b>                    r = parsec_compose(a, b); a, b plain taskpools or compounds (any composition tree).  If <a> is a compound
+ *                                            r must be a itself (<rid> = <a>, b appended as a member, nested if b is a compound), otherwise r is a NEW
+ *                                            compound [a, b] registered under the fresh id <rid>
+ *   compound <cid> <m1> ... <mn>             the left fold compose cid m1 m2; compose cid cid m3; ...   (n >= 2)
  *   compose1 <id>                            parsec_compose(tp, NULL) and (NULL, tp) must return tp
  *   start | wait | test | active | add <id> | tpwait <id> | tpwaitlate <id> <us> | stall <us> | stalladd <us> | sleep <us>
  *       tpwaitlate: call parsec_taskpool_wait(<id>) as soon as the completion callback of <id> has begun (at most <us> later)
@@ -68,6 +73,8 @@ static int32_t nev = 0;
 #define MAXTP 128
 typedef struct {
     int used, kind /*0 chain 1 fork 2 indep 3 compound*/, n, delay, has_cb, added, cbdelay;
+    int member;              /* was passed to parsec_compose as a member of some compound (a nested compound if kind == 3): never gets a test callback */
+    int alias;               /* tp is an object already registered under another id (only with a broken parsec_compose): never freed through this entry */
     volatile int cb_state;   /* 0 = callback not begun, 1 = running, 2 = ended */
     parsec_taskpool_t *tp;
     int ncbadd, cbadd[8];
@@ -204,15 +211,65 @@ static parsec_data_key_t data_key(parsec_data_collection_t *d, ...) { va_list ap
 
 static int ntasks_of(const tpd_t *d) { return 1 == d->kind ? d->n + 2 : d->n; }
 
+static int id_of_tp(const parsec_taskpool_t *p)
+{
+    if( NULL == p ) return -1;
+    for( int i = 0; i < MAXTP; i++ ) if( T[i].used && T[i].tp == p ) return i;
+    return -1;
+}
+
+/* r = parsec_compose(T[a].tp, T[b].tp), a and b of either kind; prints one `decl compose` line */
+static void do_compose(int rid, int a, int b)
+{
+    if( rid < 0 || rid >= MAXTP || a < 0 || a >= MAXTP || b < 0 || b >= MAXTP || !T[a].used || !T[b].used || a == b ) {
+        printf("compose %d %d %d => bad-op\n", rid, a, b);
+        return;
+    }
+    int append = (3 == T[a].kind);
+    parsec_taskpool_t *r = parsec_compose(T[a].tp, T[b].tp);
+    if( append ) {
+        if( r != T[a].tp || rid != a )
+            printf("!viol compose %d %d %d: start is a compound, parsec_compose must return it (returned %s, id %d)\n", rid, a, b, r == T[a].tp ? "start" : "another object", id_of_tp(r));
+        if( T[a].nmem < 32 ) T[a].mem[T[a].nmem++] = b;
+    } else {
+        tpd_t *d = &T[rid];
+        int ex = id_of_tp(r);
+        if( d->used ) { printf("!viol compose %d %d %d: result id already in use\n", rid, a, b); return; }
+        if( ex >= 0 ) { printf("!viol compose %d %d %d: start is a plain taskpool, parsec_compose must return a new compound (returned the object of id %d)\n", rid, a, b, ex); d->alias = 1; }
+        d->kind = 3; d->nmem = 2; d->mem[0] = a; d->mem[1] = b; d->tp = r;
+        __atomic_thread_fence(__ATOMIC_SEQ_CST);
+        d->used = 1;
+        T[a].member = 1;
+    }
+    T[b].member = 1;
+    printf("decl compose %d %d %d => kind=%s", rid, a, b, append ? "append" : "new");
+    if( NULL != r && PARSEC_TASKPOOL_TYPE_COMPOUND == r->taskpool_type ) {
+        compound_mirror_t *m = (compound_mirror_t*)r;
+        int n = m->nb_taskpools;
+        printf(" n=%d term=%d members=", n, (n >= 0 && n < 4096) ? (NULL == m->taskpool_array[n]) : 0);
+        for( int i = 0; i < n && i < 4096; i++ ) printf("%s%d", i ? "," : "", id_of_tp(m->taskpool_array[i]));
+        printf("\n");
+    } else {
+        printf(" n=-1 term=0 members=\n");
+    }
+}
+
 static void end_case(void)
 {
     if( case_no < 0 ) return;
     int act = ctx->active_taskpools;
     int started = !!(ctx->flags & PARSEC_CONTEXT_FLAG_CONTEXT_ACTIVE);
-    /* release the taskpools that went through the context (never-added ones are leaked on purpose) */
+    /* release the taskpools that went through the context (never-added ones are leaked on purpose): the members of a compound that was
+     * added went through it too (nested compounds are added by the callback of their parent).  Every object exactly once: one entry of T
+     * per compound object (compose with a compound `start` returns the same object and creates no entry). */
     if( 0 == act && !started ) {
-        for( int i = 0; i < MAXTP; i++ ) if( T[i].used && 3 != T[i].kind && T[i].added ) parsec_taskpool_free(T[i].tp);
-        for( int i = 0; i < MAXTP; i++ ) if( T[i].used && 3 == T[i].kind && T[i].added ) parsec_taskpool_free(T[i].tp);
+        for( int ch = 1; ch; ) {
+            ch = 0;
+            for( int i = 0; i < MAXTP; i++ ) if( T[i].used && 3 == T[i].kind && T[i].added )
+                for( int j = 0; j < T[i].nmem; j++ ) if( !T[T[i].mem[j]].added ) { T[T[i].mem[j]].added = 1; ch = 1; }
+        }
+        for( int i = 0; i < MAXTP; i++ ) if( T[i].used && 3 != T[i].kind && T[i].added && !T[i].alias ) parsec_taskpool_free(T[i].tp);
+        for( int i = 0; i < MAXTP; i++ ) if( T[i].used && 3 == T[i].kind && T[i].added && !T[i].alias ) parsec_taskpool_free(T[i].tp);
     }
     dump_events();
     if( nev >= MAXEV ) printf("!viol event buffer overflow in case %d\n", case_no);
@@ -256,7 +313,9 @@ int main(int argc, char **argv)
             else                              { d->kind = 2; d->tp = (parsec_taskpool_t*)parsec_ctx_indep_new(id, n, &A); }
             printf("decl tp %d %d => ok\n", id, ntasks_of(d));
         } else if( !strcmp(w[0], "cb") && nw == 2 ) {
-            int id = atoi(w[1]); T[id].has_cb = 1;
+            int id = atoi(w[1]);
+            if( T[id].member ) { printf("!viol cb %d: a member of a compound must not have a completion callback (the compound owns on_complete)\n", id); continue; }
+            T[id].has_cb = 1;
             T[id].tp->on_complete = on_complete; T[id].tp->on_complete_data = (void*)(intptr_t)id;
         } else if( !strcmp(w[0], "cbdelay") && nw == 3 ) {
             T[atoi(w[1])].cbdelay = atoi(w[2]);
@@ -264,18 +323,12 @@ int main(int argc, char **argv)
             tpd_t *d = &T[atoi(w[1])]; d->cbadd[d->ncbadd++] = atoi(w[2]);
         } else if( !strcmp(w[0], "addat") && nw == 4 ) {
             tpd_t *d = &T[atoi(w[1])]; d->addat[d->naddat].task = atoi(w[2]); d->addat[d->naddat++].id = atoi(w[3]);
+        } else if( !strcmp(w[0], "compose") && nw == 4 ) {
+            do_compose(atoi(w[1]), atoi(w[2]), atoi(w[3]));
         } else if( !strcmp(w[0], "compound") && nw >= 4 ) {
-            int cid = atoi(w[1]); tpd_t *d = &T[cid];
-            parsec_taskpool_t *c = NULL;
-            d->kind = 3;
-            for( int i = 2; i < nw; i++ ) { d->mem[d->nmem++] = atoi(w[i]); T[atoi(w[i])].added = 1; c = parsec_compose(c, T[atoi(w[i])].tp); }
-            d->tp = c; d->used = 1;
-            compound_mirror_t *m = (compound_mirror_t*)c;
-            int same = 1;
-            for( int i = 0; i < d->nmem; i++ ) same &= (m->taskpool_array[i] == T[d->mem[i]].tp);
-            printf("decl comp %d", cid);
-            for( int i = 0; i < d->nmem; i++ ) printf(" %d", d->mem[i]);
-            printf(" => n=%d term=%d members=%d\n", m->nb_taskpools, NULL == m->taskpool_array[m->nb_taskpools], same);
+            int cid = atoi(w[1]);
+            do_compose(cid, atoi(w[2]), atoi(w[3]));
+            for( int i = 4; i < nw; i++ ) do_compose(cid, cid, atoi(w[i]));
         } else if( !strcmp(w[0], "compose1") && nw == 2 ) {
             int id = atoi(w[1]);
             int same = (parsec_compose(T[id].tp, NULL) == T[id].tp) && (parsec_compose(NULL, T[id].tp) == T[id].tp);
